@@ -293,9 +293,16 @@ class Check:
             if self.pid == "C17":
                 # powerlaw_sample and the closed forms of powerlaw_mle_alpha re-translated over the reals (C17_source_*)
                 changed += [body_translator(load("gen_formulas").gen_real)]
+            if self.pid == "C13":
+                # renyi2_entropy / stdrenyi2_entropy of pyrepseq/entropy.py re-translated over the reals, the statistics they call as
+                # parameters (C13_source_*)
+                changed += [body_translator(load("gen_formulas").gen_entropy)]
             if self.pid in ("C02", "C06", "C16"):
                 # formulas of pyrepseq/stats.py re-translated into Lean definitions (Cxx_source_* prove they are the models)
                 changed += [body_translator(lambda: load("gen_formulas").gen_group("pc" if self.pid != "C16" else "richness"))]
+                if self.pid == "C06":
+                    # stdpc_n re-translated over the reals, varpc_n inlined (C06_source_stdpc_n, C06_source_std_sq)
+                    changed += [body_translator(load("gen_formulas").gen_std)]
             if any(changed):
                 self.notes.append(f"Generated/*.lean rewritten from /repo: {changed}")
         except Exception as e:  # noqa
